@@ -21,6 +21,8 @@ struct HistoryGenParams
     uint32_t maxSegLen{64};
     int bigSegmentHistories{0};  // N > 0: one history in N uses segments of 20000..65535 bytes on one or two endpoints, so that
                                  // accumulated messages cross the 65535 bytes a 16-bit length can describe
+    int manyEndpoints{0};        // N > 0: one history in N starts with first segments of 60..70 / 250..260 / 1020..1030 distinct endpoints
+                                 // (that many messages in progress at once: table sizes, limits, evictions)
 };
 
 struct GenEndpointState
@@ -159,6 +161,20 @@ inline rc::Gen<FrameHistory> genFrameHistory(const HistoryGenParams& params)
         const bool big = params.bigSegmentHistories > 0 && *range<int>(0, params.bigSegmentHistories - 1) == 0;
         int nEp = *range<int>(1, big ? 2 : std::min(params.endpoints, 4));
         std::vector<GenEndpointState> st(static_cast<size_t>(nEp));
+        if (params.manyEndpoints > 0 && !big && *range<int>(0, params.manyEndpoints - 1) == 0)
+        {
+            int k = *rc::gen::weightedOneOf<int>({{3, range<int>(60, 70)}, {1, range<int>(250, 260)}, {1, range<int>(1020, 1030)}});
+            uint16_t base = *rc::gen::element<uint16_t>(0x0100, 0x4000, 1000, 0xF000);
+            for (int i = 0; i < k; ++i)
+            {
+                FrameRecipe f;
+                f.dev = static_cast<uint16_t>(base + i);
+                f.stream = static_cast<uint8_t>(i * 7);
+                f.seq = static_cast<uint16_t>(i);
+                f.msgs.push_back(genMsg(1, 24));
+                hist.frames.push_back(std::move(f));
+            }
+        }
         int n = *range<int>(1, params.maxFrames);
         for (int i = 0; i < n; ++i)
         {
